@@ -11,8 +11,9 @@ def doc_texts(d):
     return [c.text[2:].strip() for c in d.doc_toks()]
 
 
-def check_hover(part, sess, uri, P, text, T, rng, max_ids):
+def check_hover(part, sess, uri, P, text, T, rng, max_ids, open_ids=frozenset()):
     ids = feat.idents(P)
+    pm = feat.proc_of_tokens(P)
     for tk in (ids if len(ids) <= max_ids else rng.sample(ids, max_ids)):
         l, c = rng.choice(feat.columns(rng, T, tk))
         res = sess.result("textDocument/hover", tdp(uri, l, c)); part.ev()
@@ -28,6 +29,9 @@ def check_hover(part, sess, uri, P, text, T, rng, max_ids):
             sig = gen.signature(b)
             first = "```spl\n" + sig + "\n```"
             if not val.startswith(first):
+                loc = feat.shadowing_local(P, tk, pm)
+                if loc is not None and "K-C14-1" in open_ids and val.startswith("```spl\n" + gen.signature(loc) + "\n```"):
+                    part.known("K-C14-1", "known class"); part.add("known_classes_seen", "K-C14-1/hover"); continue
                 part.fail("hover on %r (%s) shows %r, the declaration is %r" % (tk.text, kind, val[:120], sig), dict(sc, expected=sig)); continue
             rest = val[len(first):]
             docs = doc_texts(b)
@@ -91,14 +95,14 @@ def check_sighelp(part, sess, uri, P, text, T, rng, max_calls):
 
 
 def worker(args):
-    seed, nprog, max_ids = args
+    seed, nprog, max_ids, open_ids = args
     rng = random.Random("C14/%s" % seed)
     part = Part(); sess = feat.Session()
     for it in range(nprog):
         P, text, T = feat.program(rng)
         try:
             uri = sess.open(text, "c14_")
-            check_hover(part, sess, uri, P, text, T, rng, max_ids)
+            check_hover(part, sess, uri, P, text, T, rng, max_ids, open_ids)
             check_sighelp(part, sess, uri, P, text, T, rng, max_ids // 2)
             sess.close(uri)
             if it == 0: part.sample({"part": "hover/signatureHelp", "text": text[:300], "calls": len(P.calls)}, 1)
@@ -111,13 +115,32 @@ def worker(args):
 def run(ctx):
     server_bin("rel")
     nprog, mi = (60, 30) if ctx.quick else (1500, 100)
-    for p in pmap(worker, [("%s/%d" % (ctx.seed, i), nprog, mi) for i in range(NCPU)]): ctx.merge(p)
+    open_ids = frozenset(f["id"] for f in ctx.open_findings())
+    replay_witnesses(ctx)
+    for p in pmap(worker, [("%s/%d" % (ctx.seed, i), nprog, mi, open_ids) for i in range(NCPU)]): ctx.merge(p)
     ctx.rule = ("well-typed generated programs; hover on every sampled identifier (signature = kind, name, ref marker, fully resolved type; doc comments in order; exact range); "
                 "signatureHelp at every call: after `(`, after each comma, before `)`, inside and at the end of each argument, calls nested in blocks/branches/loops, predefined callees; "
                 "distinct_nontrivial = distinct (request, binding kind / cursor place, role, ...) classes answered as expected")
     ctx.assumptions = ["signatures are rendered from the generator's ground truth; for predefined procedures only name, arity, ref markers and types are prescribed (not parameter names)"]
     ctx.floor("evaluations", ctx.evaluations, 4000)
     ctx.floor("signature help answers", ctx.extra.get("counters", {}).get("sighelp_ok", 0), 500)
+
+
+def replay_witnesses(ctx):
+    import json, os
+    from ..core import VERIF
+    sess = feat.Session()
+    for f in ctx.open_findings():
+        w = json.load(open(os.path.join(VERIF, f["witness"])))["scenario"]
+        try:
+            uri = sess.open(w["text"], "c14w_")
+            res = sess.result("textDocument/hover", tdp(uri, w["line"], w["character"])); ctx.count(); sess.close(uri)
+            val = (res or {}).get("contents", {}).get("value", "") if isinstance(res, dict) else ""
+            if not val.startswith("```spl\n" + w["expected"] + "\n```"): ctx.known(f["id"], f["what"])
+            else: ctx.extra.setdefault("witnesses_no_longer_failing", []).append(f["id"])
+        except (ServerDied, Timeout, FrameError):
+            ctx.known(f["id"], f["what"]); sess.kill()
+    sess.kill()
 
 
 def replay(ctx, sc):
